@@ -517,6 +517,9 @@ def writer_samebuf(prog, rep):
         for e in f.all_elems():
             if e.is_assign and e.op == "=" and norm(e.kid(0))[0] == "v" and (f.unit.types.get(e.kid(0).ty) or {}).get("pointee", "").replace(" ", "") == "structwritebuf":
                 rhs = e.kid(1).strip() if e.kid(1) is not None else None
+                rn = norm(e.kid(1)) if e.kid(1) is not None else ("?",)
+                if rn == ("c", 0) or (rn[0] == "v" and not e.macro):
+                    continue         # NULL, or a copy of another such variable (whose own origin is classified): selects nothing
                 kind = "other"
                 stack = set(e.macro) | (set(rhs.macro) if rhs is not None else set())
                 if rhs is not None and rhs.cls == "CallExpr" and rhs.callee in ("malloc", "calloc"):
